@@ -400,7 +400,7 @@ func dbsimReplay(c *Ctx, rf *ReplayFile) []Violation {
 var rootTableRe = regexp.MustCompile(`^sstable_[0-9]+$`)
 
 // analyzeCompactions checks, for every compaction cycle of the trace, that the selected tables form a gap-free
-// run of the live tables in age order and that the merged table is installed in the slot of the oldest selected.
+// run of the live tables in age order and that the merged table takes the run's place in that order.
 func analyzeCompactions(trace []simrt.Event) (vs []dbViolation, partial, cycles int) {
 	live := map[string]bool{}
 	selectedBy := map[string][]string{} // compaction dir -> selected base names
@@ -418,8 +418,25 @@ func analyzeCompactions(trace []simrt.Event) (vs []dbViolation, partial, cycles 
 				live[e.Path2] = true
 			}
 			if sel, ok := selectedBy[e.Path]; ok && len(sel) > 0 {
-				if e.Path2 != sel[0] {
-					vs = append(vs, dbViolation{"compaction|replacement-slot-not-oldest", fmt.Sprintf("merged table %s was installed as %s, the oldest selected table is %s (selected %v)", e.Path, e.Path2, sel[0], sel)})
+				// the merged table must take the place of the selected run in the age order: every live table that was
+				// not selected stays on the side of the run it was on (which slot inside the run is used is the
+				// implementation's business)
+				insel := map[string]bool{}
+				for _, t := range sel {
+					insel[t] = true
+				}
+				var others []string
+				for t := range live {
+					if !insel[t] && t != e.Path2 {
+						others = append(others, t)
+					}
+				}
+				sort.Strings(others)
+				for _, t := range others {
+					if (t < sel[0]) != (t < e.Path2) {
+						vs = append(vs, dbViolation{"compaction|merged-table-out-of-age-order", fmt.Sprintf("merged table %s was installed as %s, which moves it across the unselected table %s (selected run %v)", e.Path, e.Path2, t, sel)})
+						break
+					}
 				}
 			}
 		case simrt.EvLog:
